@@ -8,6 +8,8 @@
   the unmodelled components) is monitored by ASan/UBSan on every correspondence
   run of every property (partial).
 -/
+import CSD.Generated.Bodies
+import CSD.Model.SourceText
 import CSD.Lemmas.PFCIter
 import CSD.Lemmas.LogSeq
 import CSD.Lemmas.Dups
@@ -73,5 +75,20 @@ theorem containers_in_bounds :
   · intro occs h; rw [Dups.drain_all occs h]; rfl
 
 example : validDict [[0x61], [0x62]] = true := by decide
+
+/-- The models this file's theorems are about were written against the current text of the C++
+functions they mirror (`CSD/Generated/Bodies.lean` is re-extracted from the sources on every run,
+`CSD/Model/SourceText.lean` is what was reviewed): an edit of one of these functions breaks this
+obligation even if no generated input tells the behaviours apart. -/
+theorem models_match_source_text :
+    Generated.body_PFC_ctor = SourceText.body_PFC_ctor ∧
+    Generated.body_PFC_locate = SourceText.body_PFC_locate ∧
+    Generated.body_PFC_locateBucket = SourceText.body_PFC_locateBucket ∧
+    Generated.body_PFC_getHeader = SourceText.body_PFC_getHeader ∧
+    Generated.body_PFC_decodeNextString = SourceText.body_PFC_decodeNextString ∧
+    Generated.body_PFC_extract = SourceText.body_PFC_extract ∧
+    Generated.body_LogSequence_get_field = SourceText.body_LogSequence_get_field ∧
+    Generated.body_LogSequence_set_field = SourceText.body_LogSequence_set_field ∧
+    Generated.body_LogSequence_vector_ctor = SourceText.body_LogSequence_vector_ctor := ⟨rfl, rfl, rfl, rfl, rfl, rfl, rfl, rfl, rfl⟩
 
 end CSD.Props.C07
